@@ -26,12 +26,12 @@ impl EventFrameMapper {
 // scripted decoder: push("p<k><kinds>") yields one parsed event per kind letter (e event, t text delta, d done); finish() yields the script given at construction
 pub struct SseDecoder { fin: String }
 fn script(s: &str) -> Vec<ParsedEvent> {
-    s.chars().map(|c| ParsedEvent { kind: if c == 'd' { ParsedEventKind::Done } else { ParsedEventKind::Event }, event: None, raw: c.to_string(), data: None, errors: vec![], response_errors: vec![] }).collect()
+    s.chars().filter(|c| matches!(c, 'e' | 't' | 'd')).map(|c| ParsedEvent { kind: if c == 'd' { ParsedEventKind::Done } else { ParsedEventKind::Event }, event: None, raw: c.to_string(), data: None, errors: vec![], response_errors: vec![] }).collect()
 }
-thread_local! { static FIN: RefCell<String> = RefCell::new(String::new()); }
+thread_local! { static FIN: RefCell<String> = RefCell::new(String::new()); static TEXT: RefCell<String> = RefCell::new(String::new()); }
 impl SseDecoder {
     pub fn new_with_validation(_v: ValidationOptions) -> Self { SseDecoder { fin: FIN.with(|f| f.borrow().clone()) } }
-    pub fn push(&mut self, chunk: &str) -> Vec<ParsedEvent> { script(chunk) }
+    pub fn push(&mut self, chunk: &str) -> Vec<ParsedEvent> { TEXT.with(|t| t.borrow_mut().push_str(chunk)); script(chunk) }
     pub fn finish(&mut self) -> Vec<ParsedEvent> { script(&self.fin) }
 }
 pub struct ToolCallCollector;
@@ -52,11 +52,45 @@ impl<'a> OpenResponsesSsePipe<'a> {
     //@@ end
     //@@ fn crates/ripd/src/session.rs OpenResponsesSsePipe::finish rules=R3
     //@@ end
+    //@@ fn crates/ripd/src/session.rs OpenResponsesSsePipe::push_bytes rules=R3
+    //@@ end
+}
+
+// bytes -> decoder text: whatever the chunking of the body, the decoder receives the lossy decoding of the bytes (an incomplete
+// trailing sequence waits in the buffer), so parsed events cannot depend on where the transport split the stream
+fn bytes_clause() {
+    let tokens: [&[u8]; 10] = [b"a", "\u{e9}".as_bytes(), "\u{20ac}".as_bytes(), "\u{1f600}".as_bytes(), &[0xFF], &[0x80], &[0xC3], &[0xE2, 0x82], &[0xF0, 0x9F, 0x98], b"e"];
+    for n in 0..=3usize { for code in 0..tokens.len().pow(n as u32) {
+        let mut c = code; let mut body: Vec<u8> = Vec::new();
+        for _ in 0..n { body.extend_from_slice(tokens[c % tokens.len()]); c /= tokens.len(); }
+        let whole = String::from_utf8_lossy(&body).into_owned();
+        let cuts = body.len().saturating_sub(1);
+        for mask in 0..(1usize << cuts) {
+            TEXT.with(|t| t.borrow_mut().clear()); FIN.with(|f| f.borrow_mut().clear());
+            let out = RefCell::new(Vec::new()); let mut seq = 0u64; let mut buf: Vec<u8> = Vec::new();
+            let mut chunks: Vec<Vec<u8>> = Vec::new();
+            {
+                let mut pipe = OpenResponsesSsePipe::new("s", &mut seq, EventSink { out: &out }, None, ValidationOptions);
+                let mut start = 0usize;
+                for i in 0..body.len() { if i + 1 == body.len() || (mask >> i) & 1 == 1 { chunks.push(body[start..=i].to_vec()); start = i + 1; } }
+                for ch in &chunks { pipe.push_bytes(&mut buf, ch); }
+            }
+            let text = TEXT.with(|t| t.borrow().clone());
+            let tail_ok = buf.is_empty() || matches!(std::str::from_utf8(&buf), Err(e) if e.valid_up_to() == 0 && e.error_len().is_none());
+            let joined = format!("{}{}", text, String::from_utf8_lossy(&buf));
+            if !tail_ok || joined != whole {
+                println!("WITNESS {{\"function\": \"OpenResponsesSsePipe::push_bytes\", \"body_bytes\": {:?}, \"chunks\": {:?}, \"text_given_to_the_decoder\": {:?}, \"bytes_left_in_buffer\": {:?}, \"lossy_decoding_of_the_body\": {:?}, \"problem\": \"the text reaching the SSE decoder depends on how the transport chunked the body\"}}",
+                    body, chunks, text, buf, whole);
+                return;
+            }
+        }
+    } }
 }
 
 fn main() {
     let args: Vec<String> = std::env::args().collect();
     let label = args.get(1).cloned().unwrap_or_default();
+    if label.contains("bytes") || label.is_empty() { bytes_clause(); if !label.is_empty() { return; } }
     if !(label.contains("numbering") || label.contains("numbered") || label.contains("rebased")) { return; }
     let scripts = ["", "e", "t", "et", "te", "ed", "tt"];
     for start in [0u64, 1, 7] {
